@@ -53,6 +53,7 @@ def main():
     charsets = sorted({n for n in G.GETTEXT_PORTABLE if C.usable_text_codec(n)} | set(G.EXTRA_CODECS)
                       | {'utf-16', 'utf-7', 'idna', 'punycode', 'cp037', 'iso-8859-16', 'mac-roman', 'hz', 'iso2022_jp', 'unicode_escape'})
     cex += C.falsify_unrepresentable(chk, charsets, fs)
+    cex += C.falsify_loader(chk, names)
     chk.evaluations += sum(sum(v.values()) for v in chk.coverage.get('falsifier', {}).values() if isinstance(v, dict))
     seen = set()
     fresh = 0
